@@ -677,7 +677,7 @@ def c17(ctx):
 HOST_CFG = ('SPECIFICATION Spec\nCONSTANTS Phases = {"fresh", "traffic", "upgrading", "pinged"} Classes = {"wrongdir", "early-heartbeat", "unknown-type", '
             '"empty-packet", "v3-trunc-len", "v3-inflated-len", "v3-neg-len", "v3bin-garbage", "bad-utf8", "bad-base64", "octet-v4", "odd-method", "huge-query", '
             '"jsonp-garbage", "ws-binary-on-b64", "ws-empty", "ws-control", "ws-after-close", "post-after-close", "eio-mismatch-upgrade", "garbage-body", '
-            '"double-colon", "many-packets"}\n Revs = {3, 4} Kinds = {"polling", "websocket"} Limits = {100, 1000, 5000} Mode = "%s"\nINVARIANTS Total SizeOK\n')
+            '"double-colon", "many-packets", "probe-repeat", "probe-then-silence", "wt-bad-handshake", "bad-accept-encoding", "bad-headers"}\n Revs = {3, 4} Kinds = {"polling", "websocket"} Limits = {100, 1000, 5000} Mode = "%s"\nINVARIANTS Total SizeOK\n')
 
 
 @prop("C09")
